@@ -97,7 +97,7 @@ func (x *Exec) runTop(fn *ssa.Function, spec *FuncSpec) {
 		v := m.freshValue(fv.Type(), "fv."+fv.Name())
 		x.constrainParam(v, true)
 		fr.reg[fv] = v
-		fr.params[fv.Name()] = v
+		fr.freevars[fv.Name()] = v
 	}
 	if errs := fr.bindLoopSpecs(); len(errs) > 0 {
 		for _, e := range errs {
